@@ -161,4 +161,34 @@ def append (arr d : List Byte) : List Byte := arr ++ d
 def get (d : List Byte) (off take : Nat) : Option (List Byte) :=
   if off + take ≤ d.length then some ((d.drop off).take take) else none
 
+/- ---------------------------------------------------------------- command hash -/
+
+/-- `*str` as `char` (signed) widened to 64 bit -/
+def signExt (c : Byte) : UInt64 := if c.toNat < 128 then c.toUInt64 else c.toUInt64 ||| 0xffffffffffffff00
+/-- `mpt_hash_djb2(data, len)` -/
+def djb2 (h : UInt64) : List Byte → UInt64
+  | [] => h
+  | c :: r => djb2 ((h * 33) ^^^ signExt c) r
+def hash (bs : List Byte) : UInt64 := djb2 5381 bs
+
+/-- `mpt_dispatch_hash` up to the handler lookup, on a contiguous message: 2-byte type header, then the
+    command word = first argument (separator `arg` for command messages, else zero-terminated);
+    `none` = refused before any handler is called -/
+def dhash (d : List Byte) : Option UInt64 :=
+  match d with
+  | ty :: arg :: payload =>
+    let sep : Byte := if ty == 4 then arg else 0
+    match argv payload sep with
+    | none => none
+    | some (len, d') =>
+      if len = 0 then none
+      else
+        let word := d'.take len
+        some (hash (if sep == 0 && word.getLast? == some 0 then word.dropLast else word))
+  | _ => none
+
+/-- `mpt_stream_append(stream, msg)` followed by the end of the message: the messages that arrive on the
+    stream (exactly one, the content) and the returned length -/
+def sappend (d : List Byte) : Nat × List (List Byte) := (d.length, [d])
+
 end Mpt.Flat
